@@ -1,11 +1,124 @@
 (** C17 - connection lifecycle: every subscription ends exactly once and stops for good.
-    Model: Server/Model.v (graphql/server.go over the interface of reactive.Rerunner). *)
-From Coq Require Import List String.
-From Thunder Require Import Lib.Json DiffMerge.Model Server.Model Server.Proofs.
+
+    Model: Server/Model.v - a labelled transition system of graphql/server.go (conn, handleSubscribe,
+    handleMutate, closeSubscription(s), handle, ServeJSONSocket) over the interface of reactive.Rerunner;
+    [step cfg s l] is one atomic section of the Go code, a history is a list of labels, [run] replays one.
+    Vocabulary: Server/Spec.v.  [repaired max] is the code with C17-fix-1..4 applied; the theorems name
+    the repair flags they need, and the [_refuted] theorems show that each flag is needed: with only that
+    repair missing (the original code at that place) the statement fails on a concrete history, which
+    corpus/C17/*.json replays on the implementation.
+
+    A "subscription" is one rerunner [rid] (numbered in creation order); [st_subs] is conn.subscriptions
+    (id -> rid); [st_runners] is every rerunner ever created, with its status Live / Failed / Stopped. *)
+From Coq Require Import List String Bool Arith.
+From Thunder Require Import Lib.Json DiffMerge.Model Server.Model Server.Spec Server.Proofs Server.ProofsLife
+     Server.ProofsLog Server.Witness Server.ProofsC17.
 Import ListNotations.
 
-(** A rerunner on which Stop() was called completes no further computation. *)
-Theorem stopped_never_runs : forall cfg s rid r o,
-  st_runners s rid = Some r -> r_stat r = Stopped -> step cfg s (LRun rid o) = None.
-Proof. exact Proofs.stopped_never_runs. Qed.
-Print Assumptions stopped_never_runs.
+(** No leak, duplicate-id rule, map consistency.  In every reachable state: ids in the map are unique;
+    every map entry is a not-yet-stopped rerunner created for that id; every rerunner that was ever created
+    and is not stopped is in the map under its id; after ServeJSONSocket returned the map is empty. *)
+Theorem map_invariant : forall cfg s, c_fix_mutdup cfg = true -> reachable cfg s ->
+  NoDup (map fst (st_subs s))
+  /\ (forall id rid, In (id, rid) (st_subs s) ->
+        exists r, st_runners s rid = Some r /\ r_sub r = id /\ r_stat r <> Stopped)
+  /\ (forall rid r, st_runners s rid = Some r -> r_stat r <> Stopped -> In (r_sub r, rid) (st_subs s))
+  /\ (st_closed s = true -> st_subs s = []).
+Proof. exact ProofsC17.map_invariant_l. Qed.
+Print Assumptions map_invariant.
+
+(** After the connection closed, every rerunner ever created has been stopped. *)
+Theorem all_stopped_after_close : forall cfg s, c_fix_mutdup cfg = true -> reachable cfg s -> st_closed s = true ->
+  forall rid r, st_runners s rid = Some r -> r_stat r = Stopped.
+Proof. exact ProofsC17.all_stopped_after_close_l. Qed.
+Print Assumptions all_stopped_after_close.
+
+(** Stops for good: once a rerunner is stopped then, in every continuation of the history, it stays
+    stopped, no run-completion label for it is enabled, and the sequence of envelopes it wrote does not
+    grow.  (Holds for every configuration: what the original code gets wrong is that it forgets to stop.) *)
+Theorem silent_after_end : forall cfg h s s' rid r,
+  reachable cfg s -> st_runners s rid = Some r -> r_stat r = Stopped -> run cfg s h = Some s' ->
+  (forall o, step cfg s' (LRun rid o) = None) /\ writes_of rid s' = writes_of rid s.
+Proof. exact ProofsC17.silent_after_end_l. Qed.
+Print Assumptions silent_after_end.
+
+(** Ends exactly once: along any history the number of steps at which a rerunner goes from alive to
+    stopped is 1 if it is stopped at the end and 0 otherwise (a rerunner that does not exist yet is not
+    stopped) - never 2; with [all_stopped_after_close]: exactly 1 for every rerunner once the connection
+    has closed. *)
+Theorem ends_exactly_once : forall cfg h s rid, run cfg init h = Some s ->
+  end_count cfg init h rid = if stopped_in s rid then 1 else 0.
+Proof. exact ProofsC17.ends_exactly_once_l. Qed.
+Print Assumptions ends_exactly_once.
+
+(** What ends a rerunner: an unsubscribe message for its id, the close task it spawned itself, or the
+    connection closing - nothing else (in particular not the close task of an earlier subscription that
+    used the same id). *)
+Theorem end_cause : forall cfg s l s' rid r,
+  c_fix_aba cfg = true -> c_fix_mutdup cfg = true -> reachable cfg s -> step cfg s l = Some s' ->
+  st_runners s rid = Some r -> r_stat r <> Stopped -> stopped_in s' rid = true ->
+  l = LUnsubscribe (r_sub r) \/ l = LCloseTask (r_sub r) rid \/ l = LSocketClose \/ l = LMalformed.
+Proof. exact ProofsC17.end_cause_l. Qed.
+Print Assumptions end_cause.
+
+(** The logger: for every id, Subscribe id and Unsubscribe id strictly alternate starting with Subscribe
+    (exactly one Unsubscribe id after each Subscribe id and before the next Subscribe id, or none yet), and the
+    last call was Subscribe id exactly when id is in the map.  Hence after the connection closed every
+    Subscribe has its Unsubscribe. *)
+Theorem logger_alternates : forall cfg s, log_fixes cfg -> reachable cfg s ->
+  forall id, alternates id (st_log s) = true /\ is_open id (st_log s) = has_id id (st_subs s).
+Proof. exact ProofsC17.logger_alternates_l. Qed.
+Print Assumptions logger_alternates.
+
+Theorem logger_balanced_after_close : forall cfg s, log_fixes cfg -> reachable cfg s -> st_closed s = true ->
+  forall id, alternates id (st_log s) = true /\ is_open id (st_log s) = false.
+Proof. exact ProofsC17.logger_balanced_after_close_l. Qed.
+Print Assumptions logger_balanced_after_close.
+
+(** The subscription limit: the number of subscriptions in the map never exceeds MaxSubscriptions
+    (mutations in flight also occupy map entries and count towards the test `len+1 > max` that
+    handleSubscribe makes, so the bound is not always attained). *)
+Theorem limit_holds : forall cfg s, c_fix_mutdup cfg = true -> reachable cfg s -> sub_count s <= c_max cfg.
+Proof. exact ProofsC17.limit_holds_l. Qed.
+Print Assumptions limit_holds.
+
+(** * The original code: each repair is needed *)
+
+(** F13.  With the original handleMutate (no duplicate check) a rerunner is alive, absent from the map,
+    after the connection closed - and a run of it is enabled and writes to the socket. *)
+Theorem no_leak_refuted :
+  exists s s', run (only_mutdup_missing 3) init h_f13 = Some s /\ st_closed s = true /\ alive_in s 0 = true
+               /\ has_rid 0 (st_subs s) = false
+               /\ step (only_mutdup_missing 3) s (LRun 0 (OOk v2)) = Some s'
+               /\ List.length (st_out s') = S (List.length (st_out s)).
+Proof. exact ProofsC17.no_leak_refuted_l. Qed.
+Print Assumptions no_leak_refuted.
+
+(** F12.  With the original closeSubscriptions the log still shows subscription 0 open after close. *)
+Theorem logger_balanced_refuted :
+  exists s, run (only_closelog_missing 3) init [LSubscribe 0 QOk; LSocketClose] = Some s
+            /\ st_closed s = true /\ is_open 0 (st_log s) = true.
+Proof. exact ProofsC17.logger_balanced_refuted_l. Qed.
+Print Assumptions logger_balanced_refuted.
+
+(** With the original handleMutate (no Subscribe call) an Unsubscribe 0 is logged that no Subscribe 0 precedes. *)
+Theorem logger_alternates_refuted :
+  exists s, run (only_mutsub_missing 3) init [LMutate 0 QOk; LRun 0 (OOk v1); LCloseTask 0 0] = Some s
+            /\ alternates 0 (st_log s) = false.
+Proof. exact ProofsC17.logger_alternates_refuted_l. Qed.
+Print Assumptions logger_alternates_refuted.
+
+(** F14.  With the original asynchronous close (by id only) the close task spawned by rerunner 0 stops
+    rerunner 1, a newer subscription with the same id. *)
+Theorem end_cause_refuted :
+  exists s s', run (only_aba_missing 3) init h_aba = Some s /\ alive_in s 1 = true
+               /\ step (only_aba_missing 3) s (LCloseTask 0 0) = Some s' /\ stopped_in s' 1 = true.
+Proof. exact ProofsC17.end_cause_refuted_l. Qed.
+Print Assumptions end_cause_refuted.
+
+(** Non-vacuity: a reachable state of the repaired model with four map entries (three subscriptions, one
+    mutation in flight), a failed subscription waiting for its close task, a pending error reply. *)
+Example reachable_rich :
+  exists s, run (repaired 5) init h_rich = Some s /\ List.length (st_subs s) = 4 /\ List.length (st_tasks s) = 1
+            /\ st_pend s <> None /\ List.length (st_out s) = 3 /\ sub_count s = 3.
+Proof. exact ProofsC17.reachable_rich_l. Qed.
